@@ -66,3 +66,14 @@ def compositions(seq):
                 start = j + 1
         pieces.append(seq[start:])
         yield pieces
+
+
+def compositions_bounded(seq, maxcuts):
+    """All ways to cut seq into consecutive non-empty pieces using at most maxcuts cut points (deviation-bounded exploration:
+    the default schedule is one piece; every cut is one deviation)."""
+    import itertools
+    n = len(seq)
+    for k in range(0, maxcuts + 1):
+        for cuts in itertools.combinations(range(1, n), k):
+            pts = [0] + list(cuts) + [n]
+            yield [seq[pts[i]:pts[i + 1]] for i in range(len(pts) - 1)]
